@@ -544,6 +544,29 @@ example : ImgOKs (some [(1, 0)]) none [] [] [0] (renOf [(1, 0)]) id (fun j => j 
   subst this
   decide
 
+/-- C09: the branch of `_preimage_of` for partners that are not neighbours (rename with
+`_copy_bdd`, conjoin with `ite`, quantify — three calls nested in the decorator's context): the
+documented result `Q q. trans ∧ target[rename]`, or abort having only added nodes; any order -/
+theorem C09_preimageFallback_abort_aware (m : Mgr) (hI : Inv m) (hc : m.ctx = true)
+    (trans target : Int) (hu : m.tbl.Mem trans) (hv : m.tbl.Mem target) (fa : Bool)
+    (rn : List (Key × Key)) (q : List Nat) (hb : badKeys rn = [])
+    (hlv : ∀ p, p ∈ intPairs rn →
+      0 ≤ p.1 ∧ p.1 < (m.nvars : Int) ∧ 0 ≤ p.2 ∧ p.2 < (m.nvars : Int))
+    (hql : ∀ i, i ∈ q → m.tbl.l2v.contains i = true) :
+    Outcome m (fun r m' => PreFallbackPost fa q (intPairs rn) trans target m.tbl r m'.tbl)
+      (preimageFallback trans target rn q fa m) :=
+  preimageFallback_out m hI hc trans target hu hv fa rn q hb hlv hql
+
+/-- non-vacuity (`C09_preimageFallback_abort_aware`) on `exDyn` inside a context -/
+example : Inv { exDyn with ctx := true } ∧ ({ exDyn with ctx := true } : Mgr).ctx = true ∧
+    badKeys [(Key.lvl 0, Key.lvl 1)] = [] ∧
+    ∀ i, i ∈ [1] → ({ exDyn with ctx := true } : Mgr).tbl.l2v.contains i = true := by
+  refine ⟨exDyn_dynInv.inv.setCtx true, rfl, by decide, ?_⟩
+  intro i hi
+  simp only [List.mem_cons, List.not_mem_nil, or_false] at hi
+  subst hi
+  decide
+
 /-- C09 `image(trans, source, rename, qvars, bdd, forall)`, renaming and quantified variables given
 by declared NAMES, operands held by the user, under the code's own preconditions stated by name
 (`ImagePre`: pairwise distinct keys, no key is a value, every target quantified or outside the
@@ -594,17 +617,14 @@ example : ImagePre 4 1 [("b", "a")] ["a"] exDyn.tbl ∧ HeldX exExt 4 ∧ HeldX 
   exact ⟨r, m', he, by rw [hp.enabled]; rfl⟩
 
 /-- C09 `preimage(trans, target, rename, qvars, bdd, forall)`, arguments by declared NAMES,
-operands held, under the part of the preconditions of `C13_preimage_partial` that can be said by
-name (`PreimagePreN`: pairwise distinct keys, no key is a value, no two keys with the same value,
-the target independent of every value): whether or not a request is served the call returns
-normally with the frame of every decorated operation (`DynInv`, counts, reordering enabled, held
-references); the result is a reference of the manager and — PROVIDED every renamed variable is a
-neighbour of its partner in the order in which the manager is LEFT (`AdjN m'.tbl`: the order of
-the call when no request was served, the order sifting chose otherwise) — it denotes
-`Q qvars. trans ∧ rename(target)` of the operands as they were (`PreimageDoc`).  The proviso
-cannot be dropped: sifting moves single variables, and `_image` is only correct for `preimage`
-when the renaming is increasing on the support of the target (C13; findings F5/F5b are about the
-same recursion). -/
+operands held, under the preconditions of `C13_preimage_any_order` by name (`PreimagePreN`:
+pairwise distinct keys, no key is a value, no two keys with the same value, the target
+independent of every value — NOTHING about the variable order): whether or not a request is
+served, the call returns normally with the frame of every decorated operation (`DynInv`, counts,
+reordering enabled, held references) and the result denotes `Q qvars. trans ∧ rename(target)` of
+the operands as they were (`PreimageDoc`).  Sifting moves single variables and may separate a
+variable from its partner (finding F4d): the retried body then renames, conjoins and quantifies
+instead of running the recursion `_image` (repair of F4d). -/
 theorem C09_preimage_transparent (ext : Nat → Nat) (m : Mgr) (hD : DynInv ext m)
     (trans target : Int) (ht : HeldX ext trans) (hs : HeldX ext target) (fa : Bool)
     (l : List (String × String)) (qs : List String) (hpre : PreimagePreN target l qs m.tbl) :
@@ -612,9 +632,7 @@ theorem C09_preimage_transparent (ext : Nat → Nat) (m : Mgr) (hD : DynInv ext 
         fa m = (.ok r, m') ∧ DynPostG ext (PreimageDoc fa qs l trans target) m r m' :=
   preimage_transparent ext (siftContract ext) m hD trans target ht hs fa l qs hpre
 
-/-- non-vacuity (`C09_preimage_transparent`): on `exDyn`, `preimage(a ∧ b, TRUE, {a: b}, {b})`;
-with two variables the partners are neighbours in every order, so the documented meaning holds
-whatever sifting did -/
+/-- non-vacuity (`C09_preimage_transparent`): on `exDyn`, `preimage(a ∧ b, TRUE, {a: b}, {b})` -/
 example : PreimagePreN 1 [("a", "b")] ["b"] exDyn.tbl ∧ HeldX exExt 4 ∧ HeldX exExt 1 ∧
     ∃ r m', preimage 4 1 [(.name "a", .name "b")] [.name "b"] false exDyn = (.ok r, m') ∧
       m'.lastLen.isSome = true ∧ m'.tbl.Mem r := by
@@ -663,10 +681,10 @@ theorem C09_image_keys_transparent (ext : Nat → Nat) (m : Mgr) (hD : DynInv ex
   image_keys_transparent ext (siftContract ext) m hD trans source ht hs fa rn qvars q hq hov hnl
     hlv htg
 
-/-- C09 `preimage` with the arguments of `C13_preimage_partial` (any keys resolving to declared
+/-- C09 `preimage` with the arguments of `C13_preimage_any_order` (any keys resolving to declared
 levels; no key is a value; no two keys with the same value; the target independent of every
-value) — adjacency is not asked of the order of the call but, in the conclusion, of the order the
-manager is left in (`PreimageDoc`). -/
+value; no adjacency asked, neither of the order of the call nor of the order the manager is left
+in): the documented preimage, stated with the names the levels had when the call was made. -/
 theorem C09_preimage_keys_transparent (ext : Nat → Nat) (m : Mgr) (hD : DynInv ext m)
     (trans target : Int) (ht : HeldX ext trans) (hs : HeldX ext target)
     (fa : Bool) (rn : List (Key × Key)) (qvars : List Key) (q : List Nat)
@@ -728,8 +746,7 @@ example : (∃ r m', image 4 1 [(.lvl 1, .lvl 0)] [.lvl 0] false exDyn = (.ok r,
 Proved above for the decorated entry points of the model: `ite`, `apply` (binary propositional
 aliases, `ite`, quantifier aliases), `var`, `quantify`/`exist`/`forall`, `let` in its three forms
 (`cofactor`, `compose`, `rename`), `cube`, `copy_bdd` into the manager, `add_expr` (every construct
-of the grammar), `image`, `preimage` (arguments by name or by level; `preimage`'s meaning under the
-proviso that the partners are still neighbours in the final order), the chaining of calls with
+of the grammar), `image`, `preimage` (arguments by name or by level, any order), the chaining of calls with
 `incref` in between; `load` (pickle) never reorders.
 NOT covered by a theorem: `load_json` (it calls the decorated `var` / `ite` of `dd.autoref`, whose
 wrappers hold every operand), DDDMP `load` (C16), and `autoref.BDD.find_or_add` (outside a context
